@@ -83,8 +83,31 @@ def derive_write_helpers(facts):
     return helpers
 
 
+COMPOSITE_WRITES = set()   # id() of call terminators `timeout(d, async { ..frame writes.. })`, derived per run (derive_composite_writes)
+
+
+def derive_composite_writes(facts):
+    """A timer around an async block that performs frame writes (`timeout(limit, async { write(..).await?; flush().await?; Ok(()) })`) is one
+    composite write primitive of the enclosing function: its awaited result carries both the timer's verdict and the block's own."""
+    COMPOSITE_WRITES.clear()
+    for b in facts.bodies.values():
+        if not b.path.split("::")[0].lstrip("<") in ("client", "async_client", "websocket_client", "server", "async_server"):
+            continue
+        s = None
+        for i, t in b.calls():
+            if t["callee"]["name"] in ("timeout", "timeout_at") and "tokio::time" in t["callee"]["path"] and len(t["args"]) == 2:
+                s = s or Sym(b)
+                fut = s.op(t["args"][1])
+                for x in walk(fut):
+                    if x[0] == "agg" and str(x[1]).startswith("coroutine:"):
+                        cp = str(x[1]).split(":", 1)[1]
+                        sub = [facts.bodies[p_] for p_ in facts.bodies if p_ == cp or p_.startswith(cp + "::{")]
+                        if any(_is_base_write_prim(t2) for sb in sub for _, t2 in sb.calls()):
+                            COMPOSITE_WRITES.add(id(t))
+
+
 def is_write_prim(t):
-    if _is_base_write_prim(t):
+    if _is_base_write_prim(t) or id(t) in COMPOSITE_WRITES:
         return True
     return t["callee"]["path"] in WRITE_HELPERS and not t.get("inlined_future")
 
@@ -367,8 +390,27 @@ def run(facts, R):
     info = {}
     WRITE_HELPERS.clear()
     WRITE_HELPERS.update(derive_write_helpers(facts))
+    derive_composite_writes(facts)
     used_helpers = set()
-    for path, role, is_async in CONN:
+    # derived client frame writers: a function of the blocking / async client the table does not know that takes the writer lock
+    # and writes through it is a second `write_request` (a borrowed / streaming / bounded sibling) and carries the same obligations
+    derived_conn = []
+    for b_ in facts.bodies.values():
+        mod_ = b_.path.split("::")[0].lstrip("<")
+        if mod_ not in ("client", "async_client") or b_.path in WRITER_LOCKERS or any(b_.path == p_ for p_, _, _ in CONN):
+            continue
+        s_ = None
+        takes = False
+        for i_, t_ in b_.calls():
+            if t_["callee"]["name"] in ("lock", "try_lock", "blocking_lock") and "Mutex" in t_["callee"]["path"]:
+                s_ = s_ or Sym(b_)
+                if render(s_.op(t_["args"][0])).endswith(".writer"):
+                    takes = True
+        if takes and any(is_write_prim(t2) for _, t2 in b_.calls()):
+            derived_conn.append((b_.path, "client", b_.kind == "coroutine"))
+            R.note("derived client frame writer (judged like write_request): " + b_.path)
+    conn_all = tuple(CONN) + tuple(derived_conn)
+    for path, role, is_async in conn_all:
         info[path] = analyse_conn(facts, R, path, role, is_async)
         work = [path]
         while work:
@@ -386,7 +428,7 @@ def run(facts, R):
     # the frame writers built on them); write / write_vectored / write_buf may write a prefix and return Ok(n), so using
     # them for frame bytes needs exact remainder accounting, which the rules cannot follow: reported
     PARTIAL = ("write", "write_vectored", "write_buf", "poll_write", "poll_write_vectored", "try_write", "try_write_vectored")
-    scope = set(p for p, _, _ in CONN) | set(WRITE_HELPERS.values())
+    scope = set(p for p, _, _ in conn_all) | set(WRITE_HELPERS.values())
     for pth, bb_ in facts.bodies.items():
         if pth.startswith(("io::", "async_io::")) and ("write_message" in pth):
             scope.add(pth)
@@ -407,7 +449,7 @@ def run(facts, R):
     R.ok("whole-writes-only", "<crate>", "no partial-write primitive in the frame-writing functions", None, "%d functions" % n_scope)
 
     # ---- one-lock-per-frame: clients
-    for path, role, is_async in CONN:
+    for path, role, is_async in conn_all:
         if role != "client":
             continue
         b, sym, prims = info[path]
@@ -448,6 +490,8 @@ def run(facts, R):
                 s = s or Sym(b)
                 if render(s.op(t["args"][0])).endswith(".writer"):
                     n_lockers += 1
+                    if any(b.path == p_ for p_, _, _ in derived_conn):
+                        continue        # judged as a frame writer above
                     if b.path not in WRITER_LOCKERS and getattr(b, "changed", False):
                         # a locker the table does not know (code moved): harmless to framing iff it writes nothing, itself or
                         # through a helper, and sends no WebSocket message
@@ -509,7 +553,7 @@ def run(facts, R):
                 "writer is a local of the connection function, never moved; no spawn in the loop")
 
     # ------------------------------------------------------------------ write-failure-must-poison (clients)
-    for path, role, is_async in CONN:
+    for path, role, is_async in conn_all:
         if role != "client":
             continue
         b, sym, prims = info[path]
@@ -529,7 +573,11 @@ def run(facts, R):
                 for i, t in prims:
                     for (s, succ_t, fail_t) in result_switches(b, sym, facts, i):
                         if not any(b.dominates(x, ci) for x in succ_t):
-                            clears_ok = False
+                            # (with two alternative write routes - bounded / unbounded - no single success edge dominates the clear: what
+                            # matters is that the clear is unreachable from every failure edge)
+                            set_blocks = [si for si, _ in fp["sets"]]
+                            if not fail_t or ci in b.reachable(list(fail_t), avoid=set_blocks) or ci in fail_t:
+                                clears_ok = False
             # tested before writing: the first write is guarded by load(flag) == false
             fs = facts_at(b, sym, facts, first)
             flag_names = {f2 for _, f2 in fp["sets"]}
@@ -555,6 +603,10 @@ def run(facts, R):
             for (s, succ_t, fail_t) in result_switches(b, sym, facts, i):
                 for ft in fail_t:
                     w = must_cross(b, [(ft, 0)], return_points(b), shutdowns, after_start=False)
+                    if w is not None and shutdowns and must_cross(b, [term_pt(b, i)], [(ft, 0)], shutdowns) is None:
+                        # a later test of the same failure (the caller's `if let Err(..)` on the result of an inlined writer that
+                        # already shut the socket on its own failure edge): the shutdown lies between the write and this test
+                        w = None
                     poisoned = (w is None and bool(shutdowns)) or flag_ok
                     R.check(poisoned, "write-failure-must-poison", fn, "%s@%s failure path" % (nm, _ordinal(prims, i)),
                             "a failed or timed-out `%s` (possibly mid-frame: partial bytes on the socket or in the BufWriter) returns the error "
